@@ -3,7 +3,7 @@
 A value is a tuple of bits; a bit is a pair (tid, i): bit i of interned node tid, or the constants Z / O.
 Node kinds
   ("in", name, w)              input word
-  ("add", w, lanes)            modular sum of an associative-commutative multiset of w-bit lanes (constants folded)
+  ("add", w, items, c)         modular linear combination: sorted ((lane, coefficient), ...) of non-sum lanes plus a constant
   ("lin", 1, atoms, c)         parity of a set of atom bits (xor c)           -- canonical for linear functions
   ("bf", 1, tt, atoms)         Boolean function of <= K atom bits by truth table -- canonical for small supports
   ("op", w, name, args)        uninterpreted operation
@@ -268,37 +268,51 @@ class TermBank:
     def not_(self, a):
         return tuple(self.comb2(0b0110, x, O) for x in a)
 
-    def add(self, a, b):
+    def add(self, a, b, kb=1):
+        """a + kb * b  modulo 2^w.  Sums are kept as canonical LINEAR COMBINATIONS: a sorted tuple of (lane, coefficient)
+        pairs plus a constant, so the normal form is independent of association, order and sharing, and its size is bounded
+        by the number of distinct non-sum lanes (plain flattening of nested sums is exponential for SHA-2's recurrences)."""
         w = len(a)
-        if a == b:
-            return (Z,) + a[:-1]
-        ops = []
-        for l in (a, b):
+        mask = (1 << w) - 1
+        terms = {}
+        c = 0
+        for l, k in ((a, 1), (b, kb)):
             t = self.whole(l)
             if t is not None and self.defs[t][0] == "add":
-                ops.extend(self.defs[t][2])
+                d = self.defs[t]
+                for lane, kk in d[2]:
+                    terms[lane] = (terms.get(lane, 0) + kk * k) & mask
+                c = (c + d[3] * k) & mask
+            elif self.is_const(l):
+                c = (c + self.cval(l) * k) & mask
             else:
-                ops.append(l)
-        c = 0
-        rest = []
-        for l in ops:
-            if self.is_const(l):
-                c = (c + self.cval(l)) & ((1 << w) - 1)
-            else:
-                rest.append(l)
-        rest.sort()
-        if c:
-            rest.append(self.const(c, w))
-        if not rest:
-            return self.const(0, w)
-        if len(rest) == 1:
-            return rest[0]
-        t = self.intern(("add", w, tuple(rest)))
+                # a left-shifted whole lane is 2^s times that lane (x + x is written for x << 1 in rotation code)
+                s_ = 0
+                while s_ < w and l[s_] == Z:
+                    s_ += 1
+                if 0 < s_ < w:
+                    t0 = l[s_][0]
+                    if t0 >= 0 and self.width(t0) == w and all(l[s_ + i] == (t0, i) for i in range(w - s_)):
+                        base = tuple((t0, i) for i in range(w))
+                        if self.defs[t0][0] == "add":
+                            d = self.defs[t0]
+                            for lane, kk in d[2]:
+                                terms[lane] = (terms.get(lane, 0) + kk * k * (1 << s_)) & mask
+                            c = (c + d[3] * k * (1 << s_)) & mask
+                        else:
+                            terms[base] = (terms.get(base, 0) + k * (1 << s_)) & mask
+                        continue
+                terms[l] = (terms.get(l, 0) + k) & mask
+        items = tuple(sorted((l, k) for l, k in terms.items() if k))
+        if not items:
+            return self.const(c, w)
+        if len(items) == 1 and c == 0 and items[0][1] & (items[0][1] - 1) == 0:
+            return self.shl(items[0][0], items[0][1].bit_length() - 1)     # 2^s * x alone is pure routing
+        t = self.intern(("add", w, items, c))
         return tuple((t, i) for i in range(w))
 
     def sub(self, a, b):
-        # a - b = a + !b + 1
-        return self.add(self.add(a, self.not_(b)), self.const(1, len(a)))
+        return self.add(a, b, kb=(1 << len(a)) - 1)
 
     def rotr(self, a, k):
         k %= len(a)
@@ -353,7 +367,7 @@ class TermBank:
             if d[0] == "in":
                 return d[1]
             if d[0] == "add":
-                return "add(%s)" % ", ".join(self.show(x, depth - 1) if depth > 0 else "…" for x in d[2])
+                return "add(%s%s)" % (", ".join((("%d*" % k if k != 1 else "") + (self.show(x, depth - 1) if depth > 0 else "…")) for x, k in d[2][:8]) + (", …" if len(d[2]) > 8 else ""), (", %#x" % d[3]) if d[3] else "")
             return "%s#%d" % (d[0], t)
         if self.is_const(lane):
             return hex(self.cval(lane))
